@@ -106,7 +106,8 @@ def case(ctx, rng, idx, state):
     os.makedirs(tmp, exist_ok=True)
     try:
         with monitors.chdir(tmp), mon:
-            kw = dict(allow_restart=(storage == "allow_restart"), dump_results=(storage == "dump_results"))
+            kw = dict(allow_restart=(storage == "allow_restart"), dump_results=(storage == "dump_results"),
+                      Klist_part=int(rng.choice([1, 2, 3, 7, 10, 1000])))
             res = wb.run(system, grid, calcs, adpt_num_iter=niter, adpt_mesh=adpt_mesh, adpt_fac=adpt_fac, use_irred_kpt=use_irred,
                          symmetrize=symmetrize, parallel=False, fout_name="c10", file_Klist_path=os.path.join(tmp, "klist"),
                          print_progress_step_time=1e9, **kw)
